@@ -553,15 +553,14 @@ func (pr *ProtoArray) inSubtree(anchorIndex NodeIndex, lookupIndex NodeIndex) (u
 
 var HeadUnknownErr = errors.New("array has invalid state, head has no index")
 
-type prunedNode struct {
-	canonical bool
-	node      *ProtoNode
-}
-
 // Update the tree with new finalization information (or alternatively another trusted root and slot)
 // The slot may point to a gap slot,
 // in which case the node with the anchor block of the anchor block-root is pruned,
 // and the next nodes, up to (and excl.) the anchorSlot.
+//
+// Every node that is not the anchor or a descendant of the anchor is pruned, and reported to the sink (if any),
+// marked as canonical if it is an ancestor of the anchor.
+// If the sink fails, the nodes that were reported successfully are pruned, the remainder is left for a next call.
 func (pr *ProtoArray) OnPrune(ctx context.Context, anchorRoot Root, anchorSlot Slot) error {
 	anchorRef := NodeRef{Root: anchorRoot, Slot: anchorSlot}
 	anchorIndex, ok := pr.indices[anchorRef]
@@ -569,49 +568,93 @@ func (pr *ProtoArray) OnPrune(ctx context.Context, anchorRoot Root, anchorSlot S
 		// if the anchor is unknown, then there is nothing to prune anyway.
 		return nil
 	}
-	if anchorIndex == pr.indexOffset {
-		// nothing to do
-		return nil
+	offset := pr.indexOffset
+	count := len(pr.nodes)
+	anchorPos := int(anchorIndex - offset)
+	// Parents always have a lower index than their children: a single pass finds all descendants of the anchor.
+	keep := make([]bool, count)
+	keep[anchorPos] = true
+	for i := anchorPos + 1; i < count; i++ {
+		if tp := pr.nodes[i].TransitionParent; tp != NONE && tp >= offset && keep[tp-offset] {
+			keep[i] = true
+		}
 	}
-	// Get the head, it will help quickly determine if pruned nodes are canonical
-	head, err := pr.FindHead(anchorRoot, anchorSlot)
-	if err != nil {
+	ancestor := make([]bool, count)
+	for i := pr.nodes[anchorPos].TransitionParent; i != NONE && i >= offset; i = pr.nodes[i-offset].TransitionParent {
+		ancestor[i-offset] = true
+	}
+	// Send pruned nodes to the node sink (if any). Continue until it fails.
+	// Only prune what we successfully sent to the sink.
+	var err error
+	remove := make([]bool, count)
+	removed := 0
+	for i := 0; i < count; i++ {
+		if keep[i] {
+			continue
+		}
+		if pr.sink != nil {
+			if err = pr.sink.OnPrunedNode(ctx, pr.nodes[i].Ref, ancestor[i]); err != nil {
+				break
+			}
+		}
+		remove[i] = true
+		removed++
+	}
+	if removed == 0 {
 		return err
 	}
-	headIndex, ok := pr.indices[head]
-	if !ok {
-		return HeadUnknownErr
-	}
-	// Remove the `self.indices` and `self.blockSlots` key/values for all the to-be-deleted nodes.
-	j := 0
-	var pruned []prunedNode
-	for i := pr.indexOffset; i < anchorIndex; i++ {
-		node := &pr.nodes[j]
-		if pr.sink != nil {
-			canonical := node.BestDescendant == headIndex
-			pruned = append(pruned, prunedNode{canonical, node})
+	// Compact the array, and translate all indices.
+	newOffset := offset + NodeIndex(removed)
+	translation := make([]NodeIndex, count)
+	next := newOffset
+	for i := 0; i < count; i++ {
+		if remove[i] {
+			translation[i] = NONE
+		} else {
+			translation[i] = next
+			next++
 		}
 	}
-	// Send pruned nodes to the node sink (empty if no sink). Continue until it fails.
-	// Only prune what we successfully sent to the sink.
-	prunedUpTo := 0
-	for _, p := range pruned {
-		if err = pr.sink.OnPrunedNode(ctx, p.node.Ref, p.canonical); err != nil {
-			break
+	translate := func(i NodeIndex) NodeIndex {
+		if i == NONE || i < offset {
+			return NONE
 		}
-		prunedUpTo++
+		return translation[i-offset]
 	}
-	// adjust the slot we know for the anchor root, everything before it was pruned.
-	pr.blockSlots[anchorRoot] = anchorSlot
-	for _, p := range pruned[:prunedUpTo] {
-		delete(pr.indices, p.node.Ref)
-		// Remove the block-slots ref
-		delete(pr.blockSlots, p.node.Ref.Root)
-		// TODO: is this slicing bad for GC?
-		pr.nodes = pr.nodes[1:]
-		// update offset
-		pr.indexOffset++
+	newAnchorIndex := translation[anchorPos]
+	nodes := make([]ProtoNode, 0, count-removed)
+	for i := 0; i < count; i++ {
+		node := pr.nodes[i]
+		if remove[i] {
+			delete(pr.indices, node.Ref)
+			delete(pr.blockSlots, node.Ref.Root)
+			continue
+		}
+		fcParentPruned := node.ForkchoiceParent != NONE && translate(node.ForkchoiceParent) == NONE
+		node.TransitionParent = translate(node.TransitionParent)
+		node.ForkchoiceParent = translate(node.ForkchoiceParent)
+		node.BestChild = translate(node.BestChild)
+		node.BestDescendant = translate(node.BestDescendant)
+		if fcParentPruned && keep[i] && i != anchorPos {
+			// A block that builds on the anchor root, after a gap-slot anchor:
+			// the anchor takes over the role of the pruned block node of the anchor root.
+			node.ForkchoiceParent = newAnchorIndex
+			nodes[newAnchorIndex-newOffset].Weight += node.Weight
+		}
+		pr.indices[node.Ref] = translation[i]
+		nodes = append(nodes, node)
 	}
+	pr.nodes = nodes
+	pr.indexOffset = newOffset
+	// The first known slot of a block root may have been pruned, continue from the first remaining node.
+	for i := range pr.nodes {
+		ref := pr.nodes[i].Ref
+		if slot, ok := pr.blockSlots[ref.Root]; !ok || ref.Slot < slot {
+			pr.blockSlots[ref.Root] = ref.Slot
+		}
+	}
+	// best-child and best-descendant links may have pointed to pruned nodes
+	pr.updatedConnections = false
 	return err
 }
 
